@@ -20,12 +20,12 @@ def throttle_trace(wd, V, thr):
     states = 0
     for retry in ("TRUE", "FALSE"):
         cfg = ("SPECIFICATION Spec\nCONSTANTS\n Servers <- MCServers\n Live <- MCLive\n K = 2\n Retry = %s\n KF_FailKeepsSlot = FALSE\n"
-               "INVARIANTS AtMostK SlotsMatch\nPROPERTY EveryLiveContacted\nCHECK_DEADLOCK FALSE\n" % retry)
+               "INVARIANTS AtMostK SlotsMatch\nPROPERTIES EveryLiveContacted ReconnectKeeps NoRetryOnce\nCHECK_DEADLOCK FALSE\n" % retry)
         r = vlib.tlc(wd, "MC_Throttle", "thr%s.cfg" % retry, files={"thr%s.cfg" % retry: cfg}, timeout=600)
         if not r.ok:
             raise vlib.Inconclusive("TLC Throttle: %s %s" % (r.violated, (r.error or "")[-1200:]))
         states += r.distinct
-    log("TLC Throttle (5 servers, 3 answering, K = 2, with and without retry): %d distinct states; AtMostK, SlotsMatch, EveryLiveContacted hold" % states)
+    log("TLC Throttle (5 servers, 3 answering, K = 2, with and without retry): %d distinct states; AtMostK, SlotsMatch, EveryLiveContacted, ReconnectKeeps, NoRetryOnce hold" % states)
     trace, k, nfail, n = thr["trace"], thr["capacity"], thr["failing"], thr["servers"]
     # the observation itself: connections between accept and up/fail at any time
     inflight, peak = {}, 0
@@ -39,6 +39,9 @@ def throttle_trace(wd, V, thr):
     if peak > k:
         V.violation("%d connections were being established at the same time, the throttle has %d slots" % (peak, k),
                     {"capacity": k, "peak": peak, "trace": trace[:200]})
+    if thr.get("redialled", 0) < thr.get("dropped", 0):
+        V.violation("%d servers ended their sessions, the retrying client connected again to %d of them within 10 s" % (thr["dropped"], thr["redialled"]),
+                    {k: v for k, v in thr.items() if k != "trace"})
     mod = ("---- MODULE GThr ----\nEXTENDS ThrottleTrace\nGServers == 1..%d\nGLive == %d..%d\n====\n" % (nfail + n, nfail + 1, nfail + n))
     def validate(name, tr):
         vlib.write_ndjson(os.path.join(wd, name), tr)
@@ -59,6 +62,10 @@ def throttle_trace(wd, V, thr):
     acc2, _ = validate("thr_bad.ndjson", bad)
     if acc2 is not None:
         raise vlib.Inconclusive("ThrottleTrace accepts a trace with K+1 connections being established at once: the trace spec does not bind")
+    live1 = nfail + 1
+    acc3, _ = validate("thr_bad2.ndjson", [{"ev": "accept", "s": live1}, {"ev": "up", "s": live1}, {"ev": "accept", "s": live1}])
+    if acc3 is not None:
+        raise vlib.Inconclusive("ThrottleTrace accepts a second connection to a server whose session is up: the trace spec does not bind")
     log("throttle trace: %d events, peak %d of %d slots, accepted by ThrottleTrace: %s; corrupted trace rejected" % (len(trace), peak, k, acc))
     return states + st
 
